@@ -31,8 +31,10 @@ type roundedCounter struct {
 
 // Implements the RoundedCounter interface
 func (c *roundedCounter) Inc() {
-	atomic.AddUint64(&c.total, 1)
-	if c.total > c.value {
+	// Exactly one of any 8 consecutive increments crosses a multiple of 8;
+	// deciding on the value returned by the atomic add (instead of re-reading
+	// total and value) keeps concurrent callers from both adding 8.
+	if atomic.AddUint64(&c.total, 1)%8 == 1 {
 		atomic.AddUint64(&c.value, 8)
 	}
 }
